@@ -136,6 +136,9 @@ pub fn select_start(n: u64) -> u64 {
     g.rng.below(n)
 }
 
+pub enum Sel1<A> {
+    A(A),
+}
 pub enum Sel2<A, B> {
     A(A),
     B(B),
@@ -145,13 +148,300 @@ pub enum Sel3<A, B, C> {
     B(B),
     C(C),
 }
+pub enum Sel4<A, B, C, D> {
+    A(A),
+    B(B),
+    C(C),
+    D(D),
+}
+pub enum Sel5<A, B, C, D, E> {
+    A(A),
+    B(B),
+    C(C),
+    D(D),
+    E(E),
+}
 
-/// `tokio::select!` for the shapes the repository uses (2 or 3 branches, irrefutable patterns,
-/// block handlers): same semantics (all futures created up front, polled from a random branch,
-/// the first ready one wins, the others are dropped; handlers run outside any closure so `?`,
-/// `break` and `continue` behave as written).
+/// `tokio::select!` for 1 to 5 branches with irrefutable patterns and block handlers, with or
+/// without `biased;`: same semantics (all futures created up front, polled from a random branch
+/// — branch 0 when biased —, the first ready one wins, the others are dropped; handlers run
+/// outside any closure so `?`, `break` and `continue` behave as written). The random start is
+/// drawn from the run's scheduler PRNG. Preconditions (`, if ..`) and `else` are not supported.
 #[macro_export]
 macro_rules! sim_select {
+    ( biased; $p0:pat = $f0:expr => $h0:block $(,)? $p1:pat = $f1:expr => $h1:block $(,)? $p2:pat = $f2:expr => $h2:block $(,)? $p3:pat = $f3:expr => $h3:block $(,)? $p4:pat = $f4:expr => $h4:block $(,)? ) => {{
+        let __out = {
+            let mut __f0 = ::std::pin::pin!($f0);
+            let mut __f1 = ::std::pin::pin!($f1);
+            let mut __f2 = ::std::pin::pin!($f2);
+            let mut __f3 = ::std::pin::pin!($f3);
+            let mut __f4 = ::std::pin::pin!($f4);
+            let __start = 0u64;
+            ::std::future::poll_fn(|__cx| {
+                for __i in 0..5u64 {
+                    match (__start + __i) % 5 {
+                        0 => {
+                            if let ::std::task::Poll::Ready(v) = ::std::future::Future::poll(__f0.as_mut(), __cx) {
+                                return ::std::task::Poll::Ready($crate::task::Sel5::A(v));
+                            }
+                        }
+                        1 => {
+                            if let ::std::task::Poll::Ready(v) = ::std::future::Future::poll(__f1.as_mut(), __cx) {
+                                return ::std::task::Poll::Ready($crate::task::Sel5::B(v));
+                            }
+                        }
+                        2 => {
+                            if let ::std::task::Poll::Ready(v) = ::std::future::Future::poll(__f2.as_mut(), __cx) {
+                                return ::std::task::Poll::Ready($crate::task::Sel5::C(v));
+                            }
+                        }
+                        3 => {
+                            if let ::std::task::Poll::Ready(v) = ::std::future::Future::poll(__f3.as_mut(), __cx) {
+                                return ::std::task::Poll::Ready($crate::task::Sel5::D(v));
+                            }
+                        }
+                        _ => {
+                            if let ::std::task::Poll::Ready(v) = ::std::future::Future::poll(__f4.as_mut(), __cx) {
+                                return ::std::task::Poll::Ready($crate::task::Sel5::E(v));
+                            }
+                        }
+                    }
+                }
+                ::std::task::Poll::Pending
+            })
+            .await
+        };
+        match __out {
+            $crate::task::Sel5::A($p0) => $h0,
+            $crate::task::Sel5::B($p1) => $h1,
+            $crate::task::Sel5::C($p2) => $h2,
+            $crate::task::Sel5::D($p3) => $h3,
+            $crate::task::Sel5::E($p4) => $h4,
+        }
+    }};
+    ( biased; $p0:pat = $f0:expr => $h0:block $(,)? $p1:pat = $f1:expr => $h1:block $(,)? $p2:pat = $f2:expr => $h2:block $(,)? $p3:pat = $f3:expr => $h3:block $(,)? ) => {{
+        let __out = {
+            let mut __f0 = ::std::pin::pin!($f0);
+            let mut __f1 = ::std::pin::pin!($f1);
+            let mut __f2 = ::std::pin::pin!($f2);
+            let mut __f3 = ::std::pin::pin!($f3);
+            let __start = 0u64;
+            ::std::future::poll_fn(|__cx| {
+                for __i in 0..4u64 {
+                    match (__start + __i) % 4 {
+                        0 => {
+                            if let ::std::task::Poll::Ready(v) = ::std::future::Future::poll(__f0.as_mut(), __cx) {
+                                return ::std::task::Poll::Ready($crate::task::Sel4::A(v));
+                            }
+                        }
+                        1 => {
+                            if let ::std::task::Poll::Ready(v) = ::std::future::Future::poll(__f1.as_mut(), __cx) {
+                                return ::std::task::Poll::Ready($crate::task::Sel4::B(v));
+                            }
+                        }
+                        2 => {
+                            if let ::std::task::Poll::Ready(v) = ::std::future::Future::poll(__f2.as_mut(), __cx) {
+                                return ::std::task::Poll::Ready($crate::task::Sel4::C(v));
+                            }
+                        }
+                        _ => {
+                            if let ::std::task::Poll::Ready(v) = ::std::future::Future::poll(__f3.as_mut(), __cx) {
+                                return ::std::task::Poll::Ready($crate::task::Sel4::D(v));
+                            }
+                        }
+                    }
+                }
+                ::std::task::Poll::Pending
+            })
+            .await
+        };
+        match __out {
+            $crate::task::Sel4::A($p0) => $h0,
+            $crate::task::Sel4::B($p1) => $h1,
+            $crate::task::Sel4::C($p2) => $h2,
+            $crate::task::Sel4::D($p3) => $h3,
+        }
+    }};
+    ( biased; $p0:pat = $f0:expr => $h0:block $(,)? $p1:pat = $f1:expr => $h1:block $(,)? $p2:pat = $f2:expr => $h2:block $(,)? ) => {{
+        let __out = {
+            let mut __f0 = ::std::pin::pin!($f0);
+            let mut __f1 = ::std::pin::pin!($f1);
+            let mut __f2 = ::std::pin::pin!($f2);
+            let __start = 0u64;
+            ::std::future::poll_fn(|__cx| {
+                for __i in 0..3u64 {
+                    match (__start + __i) % 3 {
+                        0 => {
+                            if let ::std::task::Poll::Ready(v) = ::std::future::Future::poll(__f0.as_mut(), __cx) {
+                                return ::std::task::Poll::Ready($crate::task::Sel3::A(v));
+                            }
+                        }
+                        1 => {
+                            if let ::std::task::Poll::Ready(v) = ::std::future::Future::poll(__f1.as_mut(), __cx) {
+                                return ::std::task::Poll::Ready($crate::task::Sel3::B(v));
+                            }
+                        }
+                        _ => {
+                            if let ::std::task::Poll::Ready(v) = ::std::future::Future::poll(__f2.as_mut(), __cx) {
+                                return ::std::task::Poll::Ready($crate::task::Sel3::C(v));
+                            }
+                        }
+                    }
+                }
+                ::std::task::Poll::Pending
+            })
+            .await
+        };
+        match __out {
+            $crate::task::Sel3::A($p0) => $h0,
+            $crate::task::Sel3::B($p1) => $h1,
+            $crate::task::Sel3::C($p2) => $h2,
+        }
+    }};
+    ( biased; $p0:pat = $f0:expr => $h0:block $(,)? $p1:pat = $f1:expr => $h1:block $(,)? ) => {{
+        let __out = {
+            let mut __f0 = ::std::pin::pin!($f0);
+            let mut __f1 = ::std::pin::pin!($f1);
+            let __start = 0u64;
+            ::std::future::poll_fn(|__cx| {
+                for __i in 0..2u64 {
+                    match (__start + __i) % 2 {
+                        0 => {
+                            if let ::std::task::Poll::Ready(v) = ::std::future::Future::poll(__f0.as_mut(), __cx) {
+                                return ::std::task::Poll::Ready($crate::task::Sel2::A(v));
+                            }
+                        }
+                        _ => {
+                            if let ::std::task::Poll::Ready(v) = ::std::future::Future::poll(__f1.as_mut(), __cx) {
+                                return ::std::task::Poll::Ready($crate::task::Sel2::B(v));
+                            }
+                        }
+                    }
+                }
+                ::std::task::Poll::Pending
+            })
+            .await
+        };
+        match __out {
+            $crate::task::Sel2::A($p0) => $h0,
+            $crate::task::Sel2::B($p1) => $h1,
+        }
+    }};
+    ( biased; $p0:pat = $f0:expr => $h0:block $(,)? ) => {{
+        let __out = {
+            let mut __f0 = ::std::pin::pin!($f0);
+            let __start = 0u64;
+            ::std::future::poll_fn(|__cx| {
+                for __i in 0..1u64 {
+                    match (__start + __i) % 1 {
+                        _ => {
+                            if let ::std::task::Poll::Ready(v) = ::std::future::Future::poll(__f0.as_mut(), __cx) {
+                                return ::std::task::Poll::Ready($crate::task::Sel1::A(v));
+                            }
+                        }
+                    }
+                }
+                ::std::task::Poll::Pending
+            })
+            .await
+        };
+        match __out {
+            $crate::task::Sel1::A($p0) => $h0,
+        }
+    }};
+    ( $p0:pat = $f0:expr => $h0:block $(,)? $p1:pat = $f1:expr => $h1:block $(,)? $p2:pat = $f2:expr => $h2:block $(,)? $p3:pat = $f3:expr => $h3:block $(,)? $p4:pat = $f4:expr => $h4:block $(,)? ) => {{
+        let __out = {
+            let mut __f0 = ::std::pin::pin!($f0);
+            let mut __f1 = ::std::pin::pin!($f1);
+            let mut __f2 = ::std::pin::pin!($f2);
+            let mut __f3 = ::std::pin::pin!($f3);
+            let mut __f4 = ::std::pin::pin!($f4);
+            let __start = $crate::task::select_start(5);
+            ::std::future::poll_fn(|__cx| {
+                for __i in 0..5u64 {
+                    match (__start + __i) % 5 {
+                        0 => {
+                            if let ::std::task::Poll::Ready(v) = ::std::future::Future::poll(__f0.as_mut(), __cx) {
+                                return ::std::task::Poll::Ready($crate::task::Sel5::A(v));
+                            }
+                        }
+                        1 => {
+                            if let ::std::task::Poll::Ready(v) = ::std::future::Future::poll(__f1.as_mut(), __cx) {
+                                return ::std::task::Poll::Ready($crate::task::Sel5::B(v));
+                            }
+                        }
+                        2 => {
+                            if let ::std::task::Poll::Ready(v) = ::std::future::Future::poll(__f2.as_mut(), __cx) {
+                                return ::std::task::Poll::Ready($crate::task::Sel5::C(v));
+                            }
+                        }
+                        3 => {
+                            if let ::std::task::Poll::Ready(v) = ::std::future::Future::poll(__f3.as_mut(), __cx) {
+                                return ::std::task::Poll::Ready($crate::task::Sel5::D(v));
+                            }
+                        }
+                        _ => {
+                            if let ::std::task::Poll::Ready(v) = ::std::future::Future::poll(__f4.as_mut(), __cx) {
+                                return ::std::task::Poll::Ready($crate::task::Sel5::E(v));
+                            }
+                        }
+                    }
+                }
+                ::std::task::Poll::Pending
+            })
+            .await
+        };
+        match __out {
+            $crate::task::Sel5::A($p0) => $h0,
+            $crate::task::Sel5::B($p1) => $h1,
+            $crate::task::Sel5::C($p2) => $h2,
+            $crate::task::Sel5::D($p3) => $h3,
+            $crate::task::Sel5::E($p4) => $h4,
+        }
+    }};
+    ( $p0:pat = $f0:expr => $h0:block $(,)? $p1:pat = $f1:expr => $h1:block $(,)? $p2:pat = $f2:expr => $h2:block $(,)? $p3:pat = $f3:expr => $h3:block $(,)? ) => {{
+        let __out = {
+            let mut __f0 = ::std::pin::pin!($f0);
+            let mut __f1 = ::std::pin::pin!($f1);
+            let mut __f2 = ::std::pin::pin!($f2);
+            let mut __f3 = ::std::pin::pin!($f3);
+            let __start = $crate::task::select_start(4);
+            ::std::future::poll_fn(|__cx| {
+                for __i in 0..4u64 {
+                    match (__start + __i) % 4 {
+                        0 => {
+                            if let ::std::task::Poll::Ready(v) = ::std::future::Future::poll(__f0.as_mut(), __cx) {
+                                return ::std::task::Poll::Ready($crate::task::Sel4::A(v));
+                            }
+                        }
+                        1 => {
+                            if let ::std::task::Poll::Ready(v) = ::std::future::Future::poll(__f1.as_mut(), __cx) {
+                                return ::std::task::Poll::Ready($crate::task::Sel4::B(v));
+                            }
+                        }
+                        2 => {
+                            if let ::std::task::Poll::Ready(v) = ::std::future::Future::poll(__f2.as_mut(), __cx) {
+                                return ::std::task::Poll::Ready($crate::task::Sel4::C(v));
+                            }
+                        }
+                        _ => {
+                            if let ::std::task::Poll::Ready(v) = ::std::future::Future::poll(__f3.as_mut(), __cx) {
+                                return ::std::task::Poll::Ready($crate::task::Sel4::D(v));
+                            }
+                        }
+                    }
+                }
+                ::std::task::Poll::Pending
+            })
+            .await
+        };
+        match __out {
+            $crate::task::Sel4::A($p0) => $h0,
+            $crate::task::Sel4::B($p1) => $h1,
+            $crate::task::Sel4::C($p2) => $h2,
+            $crate::task::Sel4::D($p3) => $h3,
+        }
+    }};
     ( $p0:pat = $f0:expr => $h0:block $(,)? $p1:pat = $f1:expr => $h1:block $(,)? $p2:pat = $f2:expr => $h2:block $(,)? ) => {{
         let __out = {
             let mut __f0 = ::std::pin::pin!($f0);
@@ -217,6 +507,28 @@ macro_rules! sim_select {
             $crate::task::Sel2::B($p1) => $h1,
         }
     }};
+    ( $p0:pat = $f0:expr => $h0:block $(,)? ) => {{
+        let __out = {
+            let mut __f0 = ::std::pin::pin!($f0);
+            let __start = $crate::task::select_start(1);
+            ::std::future::poll_fn(|__cx| {
+                for __i in 0..1u64 {
+                    match (__start + __i) % 1 {
+                        _ => {
+                            if let ::std::task::Poll::Ready(v) = ::std::future::Future::poll(__f0.as_mut(), __cx) {
+                                return ::std::task::Poll::Ready($crate::task::Sel1::A(v));
+                            }
+                        }
+                    }
+                }
+                ::std::task::Poll::Pending
+            })
+            .await
+        };
+        match __out {
+            $crate::task::Sel1::A($p0) => $h0,
+        }
+    }};
 }
 
 pub mod shim_tokio {
@@ -237,8 +549,15 @@ pub mod shim_tokio {
         pub use ::tokio::macros::*;
     }
 
+    pub mod task {
+        pub use super::{spawn, JoinHandle};
+        pub use crate::task::yield_now;
+    }
+
     pub mod sync {
-        pub use ::tokio::sync::mpsc;
+        // everything this module does not define itself is tokio's own (runtime-agnostic:
+        // Mutex, Notify, oneshot, watch, broadcast, Semaphore, mpsc drive our wakers)
+        pub use ::tokio::sync::*;
         use crate::sim::{ctx, EvKind, LockState};
         use std::ops::{Deref, DerefMut};
 
@@ -275,6 +594,9 @@ pub mod shim_tokio {
                 let mut g = sim.lock();
                 g.locks.push(LockState { readers: 0, writer: false });
                 RwLock { id: (g.locks.len() - 1) as u32, inner: ::tokio::sync::RwLock::new(t) }
+            }
+            pub fn sim_id(&self) -> u32 {
+                self.id
             }
             pub async fn read(&self) -> RwLockReadGuard<'_, T> {
                 crate::task::sync_point().await;
@@ -362,6 +684,28 @@ pub mod shim_tokio {
             pub fn elapsed(&self) -> Duration {
                 self.0.elapsed()
             }
+            pub fn checked_duration_since(&self, earlier: Instant) -> Option<Duration> {
+                self.0.checked_duration_since(earlier.0)
+            }
+            pub fn saturating_duration_since(&self, earlier: Instant) -> Duration {
+                self.0.saturating_duration_since(earlier.0)
+            }
+            pub fn checked_add(&self, d: Duration) -> Option<Instant> {
+                self.0.checked_add(d).map(Instant)
+            }
+            pub fn checked_sub(&self, d: Duration) -> Option<Instant> {
+                self.0.checked_sub(d).map(Instant)
+            }
+        }
+        impl std::ops::AddAssign<Duration> for Instant {
+            fn add_assign(&mut self, d: Duration) {
+                *self = *self + d;
+            }
+        }
+        impl std::ops::SubAssign<Duration> for Instant {
+            fn sub_assign(&mut self, d: Duration) {
+                *self = *self - d;
+            }
         }
         impl std::ops::Add<Duration> for Instant {
             type Output = Instant;
@@ -415,6 +759,34 @@ pub mod shim_tokio {
         }
         pub fn sleep(d: Duration) -> Sleep {
             sleep_until(Instant::now() + d)
+        }
+
+        /// `tokio::time::interval`: the first tick completes at once, the following ones one
+        /// period after the previous *scheduled* tick (tokio's default, "burst", behaviour).
+        pub struct Interval {
+            next: Instant,
+            period: Duration,
+        }
+        impl Interval {
+            pub async fn tick(&mut self) -> Instant {
+                let at = self.next;
+                sleep_until(at).await;
+                self.next = at + self.period;
+                at
+            }
+            pub fn period(&self) -> Duration {
+                self.period
+            }
+            pub fn reset(&mut self) {
+                self.next = Instant::now() + self.period;
+            }
+        }
+        pub fn interval_at(start: Instant, period: Duration) -> Interval {
+            assert!(period > Duration::ZERO, "`period` must be non-zero.");
+            Interval { next: start, period }
+        }
+        pub fn interval(period: Duration) -> Interval {
+            interval_at(Instant::now(), period)
         }
 
         pub mod error {
